@@ -15,6 +15,9 @@ func installAll(c *Ctx, hpkgs []string, cuts []string) {
 	installCommon(c)
 	installNative(c)
 	installPB(c)
+	installPV(c)
+	installReflect(c)
+	installNum(c)
 	installStr(c)
 	installBig(c, hpkgs)
 	installCuts(c, cuts)
